@@ -59,6 +59,7 @@ type FuncSpec struct {
 	IsIface   bool
 	AtAsserts []*AtAssert // assertions checked at every call site of a given callee inside this function
 	Assumes   []*Clause // trusted postconditions: assumed by callers, not proved for the body (listed as assumptions)
+	IOEffect  bool   // the function performs file-system effects (counted by io_calls())
 	Conforms  string // key of the interface-method contract this method must satisfy
 	Content   bool   // generate quantified content facts for append/copy
 	Ownership bool   // enable byte-array ownership ghost state
@@ -228,6 +229,8 @@ func (sp *Specs) LoadSpecFile(path string) error {
 			cur.HasMod = true
 		case "panics_ok":
 			cur.PanicsOK = true
+		case "io_effect":
+			cur.IOEffect = true
 		case "content":
 			cur.Content = true
 		case "ownership":
